@@ -25,7 +25,7 @@ run_demo() { # prints PASS/FAIL
   elif [ -d $S/out/demo$K ]; then
      rm -rf /tmp/seedwt/$ID-$K-demo; cp -r $S/out/demo$K /tmp/seedwt/$ID-$K-demo
      # point path deps at this worktree
-     sed -i "s#path *= *\"[^\"]*wt/pilota-build\"#path = \"$WT/pilota-build\"#; s#path *= *\"[^\"]*wt/pilota\"#path = \"$WT/pilota\"#" /tmp/seedwt/$ID-$K-demo/Cargo.toml
+     sed -i "s#path *= *\"[^\"]*/pilota-build\"#path = \"$WT/pilota-build\"#; s#path *= *\"[^\"]*/pilota\"#path = \"$WT/pilota\"#" /tmp/seedwt/$ID-$K-demo/Cargo.toml
      cp $WT/Cargo.lock /tmp/seedwt/$ID-$K-demo/Cargo.lock
      if (cd /tmp/seedwt/$ID-$K-demo && timeout 1500 cargo test --offline > /tmp/seedwt/$ID-$K.$tag.log 2>&1); then echo "demo $tag: PASS" >> $OUT; else echo "demo $tag: FAIL" >> $OUT; fi
      rm -rf /tmp/seedwt/$ID-$K-demo
